@@ -39,7 +39,9 @@ def case(draw, tier):
     np_, nn = draw(gen.sizes(0, 3)), draw(gen.sizes(0, 4 if tier == "quick" else 7))
     return {"header": hdr, "prior": draw(st.lists(row, min_size=np_, max_size=np_)), "new": draw(st.lists(row, min_size=nn, max_size=nn)),
             "op": draw(st.sampled_from(["todb", "appenddb"])), "handle": draw(st.sampled_from(HANDLES)), "commit": draw(st.booleans()),
-            "source_kind": draw(st.sampled_from(["list", "pipeline"]))}
+            "source_kind": draw(st.sampled_from(["list", "pipeline"])),
+            # the documented schema= argument, on a connection where a TEMP table of the same name shadows the target
+            "schema": draw(st.sampled_from(["none", "none", "temp-shadow"]))}
 
 
 def _q(n):
@@ -94,10 +96,19 @@ def check(case, ctx):
                 dbo = cur
             else:
                 dbo = lambda: con.cursor()  # noqa
+        shadow = case.get("schema") == "temp-shadow" and con is not None
+        skw = {}
+        SHADOW_ROWS = [tuple(["shadow"] * len(hdr))]
+        if shadow:
+            con.execute("CREATE TEMP TABLE t (%s)" % ", ".join(_q(n) for n in hdr))
+            con.executemany("INSERT INTO temp.t VALUES (%s)" % ", ".join("?" * len(hdr)), SHADOW_ROWS)
+            con.commit()
+            skw["schema"] = "main"
+            ctx.labels.append("schema:temp-shadow")
         raised = None
         try:
             try:
-                fn(src, dbo, "t", commit=commit)
+                fn(src, dbo, "t", commit=commit, **skw)
             except Boom as b:
                 raised = b
             except Exception as ex:
@@ -107,6 +118,10 @@ def check(case, ctx):
                 seen = _read(path)
             except Exception as ex:
                 return Fail("%s/%s/fresh-connection-blocked" % (op, handle), "fresh connection cannot read after the call: %r" % (ex,))
+            if shadow:
+                other = [tuple(r) for r in con.execute("SELECT * FROM temp.t")]
+                if raised is None and other != SHADOW_ROWS:
+                    return Fail("%s/%s/wrong-table-touched" % (op, handle), "%s(..., 't', schema='main') changed the TEMP table of the same name: %r" % (op, other))
             if at is not None:
                 if raised is None:
                     return Fail("%s/%s/fault-swallowed" % (op, handle), "source raised at item %d of %d but the call returned normally" % (at, n + 1))
